@@ -50,6 +50,10 @@ pub struct Sc19 {
     pub run_program: usize,
     pub input: Val,
     pub script: HostScript,
+    /// events between the builds and the start of the run: no stack exists yet, so everything past the
+    /// retained prefix is garbage or held by the host
+    #[serde(default)]
+    pub pre: Vec<BEv>,
     /// boundary k = after k steps (0 = before the first step)
     pub boundaries: Vec<Vec<BEv>>,
     /// after the explicit boundaries: compact after every n-th step (0 = never)
@@ -219,7 +223,19 @@ impl Campaign for C19 {
             1..=5 => 1,
             _ => every,
         };
-        Sc19 { knobs, programs, retained, run_program, input, script, boundaries, tail_every, max_steps: 1500 }
+        // before the run starts: compaction with nothing past the retained prefix, roots inside the prefix
+        let mut pre = vec![];
+        if rng.chance(1, 3) {
+            for _ in 0..rng.range(1, 4) {
+                match rng.below(5) {
+                    0 => pre.push(BEv::HostAdd(random_value(rng, 2))),
+                    1 => pre.push(BEv::HostSymbol(format!("hs{}", rng.below(40)))),
+                    2 => pre.push(BEv::Optimize(vec![RootSel::Retained(rng.below(40)), RootSel::Retained(rng.below(40))])),
+                    _ => pre.push(BEv::Optimize(random_roots(rng))),
+                }
+            }
+        }
+        Sc19 { knobs, programs, retained, run_program, input, script, pre, boundaries, tail_every, max_steps: 1500 }
     }
 
     fn execute(&self, sc: &Sc19) -> Outcome {
@@ -228,6 +244,13 @@ impl Campaign for C19 {
 
     fn shrink(&self, sc: &Sc19) -> Vec<Sc19> {
         let mut out = vec![];
+        if !sc.pre.is_empty() {
+            for d in drop_each(&sc.pre) {
+                let mut c = sc.clone();
+                c.pre = d;
+                out.push(c);
+            }
+        }
         // fewer boundaries (cut the tail first), fewer events per boundary
         if sc.tail_every != 0 {
             let mut c = sc.clone();
@@ -316,6 +339,7 @@ impl Campaign for C19 {
             run_program: 0,
             input: Val::Unit,
             script: HostScript::default(),
+            pre: vec![],
             boundaries: vec![vec![
                 BEv::HostAdd(Val::List(vec![Val::Int(1), Val::text("abc")])),
                 BEv::CloneHeld(0),
@@ -328,7 +352,7 @@ impl Campaign for C19 {
 
     fn haystack(&self, sc: &Sc19) -> String {
         let mut s = sc.programs.join("\n----\n");
-        for b in &sc.boundaries {
+        for b in std::iter::once(&sc.pre).chain(sc.boundaries.iter()) {
             for e in b {
                 s.push_str(match e {
                     BEv::Optimize(_) => " optimize",
@@ -343,7 +367,7 @@ impl Campaign for C19 {
     }
 
     fn rule(&self) -> String {
-        "one run = 1..3 generated programs built into one BasicGarnishData (retained after build), one of them stepped under a seeded host script while optimize / clone_data / host allocations are injected at seeded step boundaries (cadence: never, every step, every n-th, Bernoulli), with random extra-root multisets (held values, addresses already on a stack, retained-prefix addresses, duplicates), random growth knobs and, in a quarter of runs, a data-block capacity limit; an uncompacted unlimited twin runs the same program. distinct = distinct scenario (programs + knobs + host script + schedule) hash; non-trivial = the run executed at least one successful optimize or clone_data while a program was in flight".to_string()
+        "one run = 1..3 generated programs built into one BasicGarnishData (retained after build), one of them stepped under a seeded host script while optimize / clone_data (of held values and of values that are on a stack) / host allocations / host values built out of addresses it already holds (shared sub-values) / symbol names registered at run time are injected at seeded step boundaries (cadence: never, every step, every n-th, Bernoulli), with random extra-root multisets (held values, addresses already on a stack, retained-prefix addresses, duplicates), random growth knobs and, in a quarter of runs, a data-block capacity limit; an uncompacted unlimited twin runs the same program. distinct = distinct scenario (programs + knobs + host script + schedule) hash; non-trivial = the run executed at least one successful optimize or clone_data while a program was in flight".to_string()
     }
 
     fn components(&self) -> Value {
@@ -484,23 +508,20 @@ pub fn execute(sc: &Sc19) -> Outcome {
             }
         }
     }
-    if start(&mut a, pa.entry_jump, &sc.input).is_err() {
-        out.abstain = Some("start-failed".into());
-        out.count("f1_store_full_fired", 1);
-        return out;
-    }
-    start(&mut b, pb.entry_jump, &sc.input).expect("twin start");
-
     let mut held: Vec<(usize, Val)> = vec![];
     let mut steps = 0usize;
-    let mut ended = false;
+    // the run is "ended" until it is started: the pre-start events go through the same code as boundary events
+    let mut ended = true;
+    let mut started = false;
     let mut optimizes_ok = 0u64;
     let mut clones_ok = 0u64;
     let mut k = 0usize;
     let mut log_seen = 0usize;
     'run: loop {
         // ---- boundary events
-        let evs: Vec<BEv> = if k < sc.boundaries.len() {
+        let evs: Vec<BEv> = if !started {
+            sc.pre.clone()
+        } else if k < sc.boundaries.len() {
             sc.boundaries[k].clone()
         } else if sc.tail_every != 0 && k % sc.tail_every == 0 && !ended {
             vec![BEv::Optimize(vec![])]
@@ -818,6 +839,22 @@ pub fn execute(sc: &Sc19) -> Outcome {
                     }
                 }
             }
+        }
+        if !started {
+            started = true;
+            ended = false;
+            if !sc.pre.is_empty() {
+                out.probe("events-before-the-run-started");
+            }
+            if start(&mut a, pa.entry_jump, &sc.input).is_err() {
+                if optimizes_ok + clones_ok == 0 {
+                    out.abstain = Some("start-failed".into());
+                }
+                out.count("f1_store_full_fired", 1);
+                break;
+            }
+            start(&mut b, pb.entry_jump, &sc.input).expect("twin start");
+            continue;
         }
         if ended {
             if k >= sc.boundaries.len() {
